@@ -38,6 +38,7 @@ Definition site_eqb (a b : site) : bool :=
   match a, b with
   | SPortRef i p, SPortRef j q => String.eqb i j && String.eqb p q
   | SNoConn n i p, SNoConn m j q => sopt_eqb n m && String.eqb i j && String.eqb p q
+  | SNoConnMember n i p x, SNoConnMember m j q y => sopt_eqb n m && String.eqb i j && String.eqb p q && same_set x y && (Z.of_nat (List.length x) =? Z.of_nat (List.length y))
   | SFlatMember x m, SFlatMember y n => String.eqb x y && String.eqb m n
   | SArrayElem x k, SArrayElem y l => String.eqb x y && N.eqb k l
   | SPairMember x m, SPairMember y n => String.eqb x y && String.eqb m n
